@@ -461,6 +461,14 @@ func (g *Gen) binop(b *ssa.BasicBlock, x *ssa.BinOp, h Heap) {
 			g.define(x, Val{T: eq(l.T, r.T), S: SBool, Ty: T})
 		case token.NEQ:
 			g.define(x, Val{T: not(eq(l.T, r.T)), S: SBool, Ty: T})
+		case token.LSS:
+			g.define(x, Val{T: sx("str.lt", l.T, r.T), S: SBool, Ty: T})
+		case token.GTR:
+			g.define(x, Val{T: sx("str.lt", r.T, l.T), S: SBool, Ty: T})
+		case token.LEQ:
+			g.define(x, Val{T: not(sx("str.lt", r.T, l.T)), S: SBool, Ty: T})
+		case token.GEQ:
+			g.define(x, Val{T: not(sx("str.lt", l.T, r.T)), S: SBool, Ty: T})
 		default:
 			g.vals[x] = g.fresh(T, "strcmp")
 		}
